@@ -178,6 +178,32 @@ pub fn wb<C: WBConfig>(t: &mut Tally, name: &str, rng: &mut Rng) {
     hash::<Projective<C>, WBMap<C>>(t, name, rng);
 }
 
+/// RFC 9380 section 6.7.1 (Elligator 2 on the Montgomery curve K t^2 = s^3 + J s^2 + s, J and K taken from the curve's
+/// Montgomery coefficients, not from the precomputed quotients) followed by the rational map of appendix D.1
+fn ell2_oracle<C: Elligator2Config>(u: C::BaseField) -> (C::BaseField, C::BaseField) {
+    use ark_ec::twisted_edwards::MontCurveConfig;
+    let one = C::BaseField::one();
+    let (j, k) = (<C as MontCurveConfig>::COEFF_A, <C as MontCurveConfig>::COEFF_B);
+    let kinv = k.inverse().unwrap();
+    let (jk, k2inv) = (j * kinv, kinv.square());
+    let q_minus_1_half = (crate::fields::field_order::<C::BaseField>() - 1u8) >> 1u32;
+    let is_square = |x: C::BaseField| x.is_zero() || crate::fields::pow_big(&x, &q_minus_1_half).is_one();
+    let inv0 = |x: C::BaseField| x.inverse().unwrap_or(C::BaseField::zero());
+    let mut x1 = -jk * inv0(one + C::Z * u.square());
+    if x1.is_zero() { x1 = -jk; }
+    let g = |x: C::BaseField| x.square() * x + jk * x.square() + x * k2inv;
+    let gx1 = g(x1);
+    let x2 = -x1 - jk;
+    let gx2 = g(x2);
+    let (x, mut y) = if is_square(gx1) { (x1, gx1.sqrt().unwrap()) } else { (x2, gx2.sqrt().unwrap()) };
+    // sgn0(y) == 1 when gx1 is a square, 0 otherwise
+    if sgn0(&y) != is_square(gx1) { y = -y; }
+    let (s, tt) = (x * k, y * k);
+    // appendix D.1: (v, w) = (s / t, (s - 1) / (s + 1)), exceptional points to the identity (0, 1)
+    let den = (s + one) * tt;
+    if den.is_zero() { (C::BaseField::zero(), one) } else { (s * tt.inverse().unwrap(), (s - one) * (s + one).inverse().unwrap()) }
+}
+
 pub fn elligator<C: Elligator2Config>(t: &mut Tally, name: &str, rng: &mut Rng) {
     t.check(<Elligator2Map<C> as MapToCurve<te::Projective<C>>>::check_parameters().is_ok(), || format!("{name}: Elligator2 check_parameters rejects the shipped parameters"));
     t.check(C::Z.legendre().is_qnr(), || format!("{name}: Elligator2 Z is a square"));
@@ -188,7 +214,10 @@ pub fn elligator<C: Elligator2Config>(t: &mut Tally, name: &str, rng: &mut Rng) 
     for _ in 0..24 { v.push(C::BaseField::rand(&mut r)); }
     for u in v {
         match t.no_panic(|| <Elligator2Map<C> as MapToCurve<te::Projective<C>>>::map_to_curve(u), || format!("{name}: Elligator2 map_to_curve({u}) panics")) {
-            Some(Ok(p)) => t.check(<C as TECurveConfig>::COEFF_A * p.x.square() + p.y.square() == C::BaseField::one() + <C as TECurveConfig>::COEFF_D * p.x.square() * p.y.square(), || format!("{name}: Elligator2 map_to_curve({u}) is not on the curve")),
+            Some(Ok(p)) => {
+                t.check(<C as TECurveConfig>::COEFF_A * p.x.square() + p.y.square() == C::BaseField::one() + <C as TECurveConfig>::COEFF_D * p.x.square() * p.y.square(), || format!("{name}: Elligator2 map_to_curve({u}) is not on the curve"));
+                t.check((p.x, p.y) == ell2_oracle::<C>(u), || format!("{name}: Elligator2 map_to_curve({u}) differs from RFC 9380 6.7.1 + the rational map of appendix D.1 (root / sign choice)"));
+            },
             Some(Err(e)) => t.check(false, || format!("{name}: Elligator2 map_to_curve({u}) = Err({e})")),
             None => {},
         }
